@@ -939,6 +939,17 @@ def cinter_functions():
         body = r.sub("R34_call", r"real_table\.(\w+)\(", r"vp_m_\1(vp_obj, ", body)
         body = r.sub("R3_static_cast", r"\*static_cast<((?:const\s+)?\w+)\*>\((\w+)\)", r"(*(\1*)(\2))", body)
         body = r.sub("R35_stderr", r"fprintf\(stderr,[^;]*\);", "", body)
+        # R39: a function-scope owning local `std::unique_ptr<splinetable<>> NAME(static_cast<splinetable<>*>(E));` is the raw pointer E whose
+        # object is destroyed when the function is left, whichever way: `void* NAME = E;` here, `vp_m_destroy(NAME)` before every
+        # return that follows the declaration (after the return value has been computed) -- inserted below, once try/catch is rewritten
+        owner = None
+        mo = re.search(r"std::unique_ptr<photospline::splinetable<>>\s+(\w+)\(\s*static_cast<photospline::splinetable<>\*>\(([^;]+?)\)\s*\);", body)
+        if mo:
+            bl0 = X.blank_comments_and_strings(body[:mo.start()])
+            if bl0.count("{") - bl0.count("}") != 1: raise ExtractionError("%s: owning local %s is not declared at function scope" % (name, mo.group(1)))
+            owner = mo.group(1); body = body[:mo.start()] + "void* %s = %s; /*VP_OWNER*/" % (owner, mo.group(2)) + body[mo.end():]
+            r.counts["R39_owning_local"] = r.counts.get("R39_owning_local", 0) + 1
+            if re.search(r"(?<![A-Za-z0-9_])%s\s*(\.|->)" % re.escape(owner), body): raise ExtractionError("%s: member access on the owning local %s is not handled" % (name, owner))
         # R22d: try{ B }catch(std::exception& ex){ H1 }catch(...){ H2 }  ->  B with `if (vp_thrown) { vp_thrown = 0; H2 }` after every statement that calls a C++ operation
         while True:
             blank = X.blank_comments_and_strings(body); m = re.search(r"(?<![A-Za-z0-9_])try\s*\{", blank)
@@ -966,9 +977,23 @@ def cinter_functions():
                 elif ch in "{}" and depth == 0: stmt0 = kk + 1
                 elif ch == ";" and depth == 0:
                     stmt = B[stmt0:kk + 1]; stmt0 = kk + 1
-                    if "vp_m_" in stmt and "vp_r =" not in stmt and "if (vp_thrown)" not in stmt: outB.append(" " + handler)
+                    ma = re.match(r"^(\s*)(\*?[A-Za-z_][\w\.]*(?:->[\w\.]+)*)\s*=(?!=)\s*(.*vp_m_.*);$", stmt, re.S)
+                    if ma and "vp_r =" not in stmt and "if (vp_thrown)" not in stmt:
+                        # an operation that throws leaves the assignment's target as it was: the store happens only past the handler
+                        del outB[len(outB) - len(stmt):]; ntmp = r.counts.get("R22_store_after_throw_test", 0); r.counts["R22_store_after_throw_test"] = ntmp + 1
+                        outB.append("%s{ __typeof__(%s) vp_t%d = %s; %s %s = vp_t%d; }" % (ma.group(1), ma.group(2), ntmp, ma.group(3), handler, ma.group(2), ntmp))
+                    elif "vp_m_" in stmt and "vp_r =" not in stmt and "if (vp_thrown)" not in stmt: outB.append(" " + handler)
             B = "".join(outB)
             body = body[:m.start()] + "{" + B + "}" + body[d1 + 1:]; r.counts["R22_try_catch"] = r.counts.get("R22_try_catch", 0) + 1
+        if owner:
+            k0 = body.index("/*VP_OWNER*/"); head, tail = body[:k0], body[k0 + len("/*VP_OWNER*/"):]
+            if ret == "void":
+                tail = re.sub(r"(?<![A-Za-z0-9_])return\s*;", "{ vp_m_destroy(%s); return; }" % owner, tail)
+                tail = tail[:tail.rindex("}")] + " vp_m_destroy(%s); }" % owner
+            else:
+                tail = re.sub(r"(?<![A-Za-z0-9_])return\s*\(([^;]*)\)\s*;", lambda mm: "{ %s vp_rv = (%s); vp_m_destroy(%s); return(vp_rv); }" % (ret, mm.group(1), owner), tail)
+                if re.search(r"(?<![A-Za-z0-9_])return(?!\(vp_rv\);)", tail): raise ExtractionError("%s: a return after the owning local %s has a form the rule R39 does not handle" % (name, owner))
+            body = head + tail
         for bad in ("std::", "static_cast", "real_table", "auto", "try", "catch", "new ", "delete "):
             if re.search(r"(?<![A-Za-z0-9_])" + re.escape(bad), body): raise ExtractionError("%s: unhandled C++ construct '%s' left after the rewrite rules" % (name, bad))
         for mm in re.finditer(r"vp_m_(\w+)\(", body):
